@@ -1062,6 +1062,7 @@ def check_C08(chk):
     bad = [cases[i] for i, _ in todo if res.get(i) != "true"]
     # close-on-exec and the listen backlog straight from the trace
     listens = [r for r in trace if r["call"] == "listen"]
+    C.scan_cloexec(chk, trace, "server driver", "a program exec'd while a one-shot server exists would keep its listening socket (or the accepted connection) open after accept returned or the server was dropped")
     cov = chk.coverage
     cov["evaluations"] = len(cases) + 1 + len(ilines)
     cov["traces_validated_against_impl"] = len(todo)
